@@ -90,7 +90,7 @@ def part_a():
     corr = [
         ('C13', last_call('mesh_assign'), r'"posv":\[0,12\]', '"posv":[0,13]', 'copied position differs'),
         ('C13', last_call('mesh_assign'), r'"deferred":true', '"deferred":false', 'copied deletion mode differs (target only)'),
-        ('C14', last_call('request'), r'"npp":\[1,0,0\]', '"npp":[2,0,0]', 'n_persistent_props off by one'),
+        ('C14', last_call('request'), r'"npp":\[1,0,0,', '"npp":[2,0,0,', 'n_persistent_props off by one'),
         ('C14', last_call('request'), r'"ret":"ptr"', '"ret":"nullopt"', 'wrong return'),
         ('C14', last_call('h_drop'), r'"lv":false', '"lv":true,"k":"V","t":"int","s":"a","sh":true,"pe":true,"d":8,"v":[8,1],"tr":0,"att":false', 'storage survives its last owner'),
         ('C13', last_call('set_vertex'), r'("t":"vec","s":"ovm:position","sh":true,"pe":false,"d":0,"v":\[)0,12(\],"tr":1)', r'\g<1>5,12\g<2>', 'write to mesh 2 shows in mesh 1'),
